@@ -63,8 +63,14 @@ def main():
     vLat = output.createVariable("lat", "f4", ("location",))
     vLon = output.createVariable("lon", "f4", ("location",))
     vElev = output.createVariable("altitude", "f4", ("location",))
-    vfcst = output.createVariable("fcst", "f4", ("time", "leadtime", "location"))
-    vobs = output.createVariable("obs", "f4", ("time", "leadtime", "location"))
+    # A verif file can have observations only or forecasts only. Write the
+    # fields that are there, so that the converted file has the same fields
+    vfcst = None
+    vobs = None
+    if input.fcst is not None:
+        vfcst = output.createVariable("fcst", "f4", ("time", "leadtime", "location"))
+    if input.obs is not None:
+        vobs = output.createVariable("obs", "f4", ("time", "leadtime", "location"))
 
     # Create nonstandard fields
     standard = [verif.field.Obs(), verif.field.Fcst()]
@@ -84,8 +90,10 @@ def main():
     if variable.x1 is not None:
         output.x1 = variable.x1
 
-    vobs[:] = input.obs
-    vfcst[:] = input.fcst
+    if vobs is not None:
+        vobs[:] = input.obs
+    if vfcst is not None:
+        vfcst[:] = input.fcst
     vTime[:] = input.times
     vOffset[:] = input.leadtimes
     vLocation[:] = [s.id for s in locations]
